@@ -1,11 +1,19 @@
 /* LD_PRELOAD shim: the consumer of delta's stdout "goes away" at a chosen write.
  * WRITESHIM_FAIL_AT=n : the n-th write(2)/writev(2) on fd WRITESHIM_FD (default 1) and all later ones
- * fail with EPIPE.  WRITESHIM_LOG=file : total number of write calls on that fd is appended at exit. */
+ * fail with EPIPE.  WRITESHIM_LOG=file : total number of write calls on that fd is appended at exit.
+ * WRITESHIM_SHORT_AT=n : the n-th such call, if it was given more than one byte, transfers only the first half of them and
+ *   returns that count (what write(2) does when a signal arrives while it waits for room in a pipe);
+ *   WRITESHIM_SHORT_EVERY=1: so do all later calls.
+ * WRITESHIM_EINTR_AT=n : the n-th such call fails with EINTR, nothing transferred (a signal arrived before any room).
+ * WRITESHIM_FD=-1 : every descriptor above 2 that is a pipe, and 1 (the pipe towards a pager).
+ * WRITESHIM_COMM=name : only in a process of that name (/proc/self/comm); children that inherit LD_PRELOAD are left alone. */
 #define _GNU_SOURCE
 #include <dlfcn.h>
 #include <errno.h>
 #include <stdio.h>
 #include <stdlib.h>
+#include <string.h>
+#include <sys/stat.h>
 #include <sys/uio.h>
 #include <unistd.h>
 
@@ -13,6 +21,16 @@ static long count = 0;
 static long fail_at = -1;
 static int fd_watch = 1;
 static int inited = 0;
+static long short_at = -1, eintr_at = -1;
+static int short_every = 0, active = 1;
+static int watched(int fd) {
+  if (!active) return 0;
+  if (fd_watch >= 0) return fd == fd_watch;
+  if (fd == 1) return 1;
+  if (fd <= 2) return 0;
+  struct stat st;
+  return fstat(fd, &st) == 0 && S_ISFIFO(st.st_mode);
+}
 
 static void fin(void) {
   const char *log = getenv("WRITESHIM_LOG");
@@ -28,15 +46,29 @@ static void init(void) {
   if (s) fail_at = atol(s);
   s = getenv("WRITESHIM_FD");
   if (s) fd_watch = atoi(s);
-  atexit(fin);
+  s = getenv("WRITESHIM_SHORT_AT");
+  if (s) short_at = atol(s);
+  s = getenv("WRITESHIM_EINTR_AT");
+  if (s) eintr_at = atol(s);
+  short_every = getenv("WRITESHIM_SHORT_EVERY") != 0;
+  s = getenv("WRITESHIM_COMM");
+  if (s) {
+    char comm[64] = "";
+    FILE *f = fopen("/proc/self/comm", "r");
+    if (f) { if (fgets(comm, sizeof comm, f)) comm[strcspn(comm, "\n")] = 0; fclose(f); }
+    active = strcmp(comm, s) == 0;
+  }
+  if (active) atexit(fin);
 }
 ssize_t write(int fd, const void *buf, size_t n) {
   static ssize_t (*real)(int, const void *, size_t) = 0;
   if (!real) real = dlsym(RTLD_NEXT, "write");
   init();
-  if (fd == fd_watch) {
+  if (watched(fd)) {
     count++;
     if (fail_at > 0 && count >= fail_at) { errno = EPIPE; return -1; }
+    if (eintr_at > 0 && count == eintr_at) { errno = EINTR; return -1; }
+    if (short_at > 0 && n > 1 && (count == short_at || (short_every && count > short_at))) return real(fd, buf, n / 2);
   }
   return real(fd, buf, n);
 }
@@ -44,9 +76,15 @@ ssize_t writev(int fd, const struct iovec *iov, int iovcnt) {
   static ssize_t (*real)(int, const struct iovec *, int) = 0;
   if (!real) real = dlsym(RTLD_NEXT, "writev");
   init();
-  if (fd == fd_watch) {
+  if (watched(fd)) {
     count++;
     if (fail_at > 0 && count >= fail_at) { errno = EPIPE; return -1; }
+    if (eintr_at > 0 && count == eintr_at) { errno = EINTR; return -1; }
+    if (short_at > 0 && iovcnt > 0 && iov[0].iov_len > 1 && (count == short_at || (short_every && count > short_at))) {
+      static ssize_t (*realw)(int, const void *, size_t) = 0;
+      if (!realw) realw = dlsym(RTLD_NEXT, "write");
+      return realw(fd, iov[0].iov_base, iov[0].iov_len / 2);
+    }
   }
   return real(fd, iov, iovcnt);
 }
